@@ -63,6 +63,13 @@ def assign_times(rng, forest, t0=1000, durs=(1, 2, 3, 10, 100, 1000), self_durs=
     return forest
 
 
+def walk(forest):
+    """every call of the forest, parents first"""
+    for c in forest:
+        yield c
+        yield from walk(c.kids)
+
+
 def flatten(forest):
     """-> list of ('E', k, t) / ('X', k, t)"""
     ev = []
